@@ -13,7 +13,8 @@
 (*          "nested" containers of depth 1 and 2 over a small atom set,    *)
 (*                   all encodings of every part (cbor: strings inside are *)
 (*                   definite length except in the IndefNested values)     *)
-(* Wide   : TRUE adds more atoms inside containers (thorough tier)         *)
+(* Wide   : TRUE adds more atoms inside containers and the 2^16 element    *)
+(*          count boundary (torepr of 65536 elements takes fq ~20 s)       *)
 (***************************************************************************)
 EXTENDS WireBytes, Json
 CONSTANTS Format, Part, Wide
@@ -117,13 +118,13 @@ Doc1(v) == Map(<<KA>>, <<v>>)
 Universe ==
     CASE Format = "msgpack" ->
            IF Part = "atoms" THEN Scalars \cup {v \in IntsAll : InMsgpack(v)} \cup Strs \cup Bins \cup Floats \cup Exts
-                                  \cup Counts({8, 16, 65535, 65536})
+                                  \cup Counts({8, 16, 255, 256} \cup (IF Wide THEN {65535, 65536} ELSE {}))
            ELSE D1(Small) \cup D1x \cup D2 \cup {Arr(<<Bin(<<104, 105>>), F64(<<63, 248, 0, 0, 0, 0, 0, 0>>)>>)}
       [] Format = "cbor" ->
            IF Part = "atoms" THEN Scalars \cup {Undef} \cup {v \in IntsAll : InCbor(v)} \cup Strs \cup Bins \cup Floats
                                   \cup {Tag(<<1>>, IntV(FALSE, <<1>>)), Tag(<<217, 247>>, Str(<<97>>)), Tag(<<24>>, Bin(<<1>>)),
                                         Tag(F(8), Null), Tag(<<1>>, Tag(<<2>>, Null))}
-           ELSE D1(Small) \cup D1x \cup D2 \cup IndefNested \cup Counts({8, 23, 24, 255, 256, 65535, 65536})
+           ELSE D1(Small) \cup D1x \cup D2 \cup IndefNested \cup Counts({8, 23, 24, 255, 256} \cup (IF Wide THEN {65535, 65536} ELSE {}))
                 \cup {Arr(<<Bin(<<104, 105>>), F64(<<63, 248, 0, 0, 0, 0, 0, 0>>)>>), Arr(<<Tag(<<1>>, IntV(FALSE, <<1>>)), Null>>),
                       Tag(<<1>>, Arr(<<IntV(FALSE, <<1>>)>>)), Map(<<KA>>, <<Tag(<<1>>, Null)>>)}
       [] Format = "bencode" ->
@@ -170,7 +171,7 @@ Rejects == IF Format = "bencode" /\ Part = "atoms"
 
 \* truncation points (lengths of the proper prefixes to try) and trailing data
 Cuts(n) == IF n <= 48 THEN 0..(n - 1) ELSE (0..12) \cup {n \div 2} \cup ((n - 3)..(n - 1))
-Trails(e) == IF Part = "atoms" THEN {<<0>>, <<255, 255>>, <<e[1]>>} ELSE {<<e[1]>>}
+Trails(v, e) == IF Part = "atoms" /\ v.t # "nulls" THEN {<<0>>, <<255, 255>>, <<e[1]>>} ELSE {<<e[1]>>}
 
 VARIABLE c
 Init == \/ \E v \in Universe : \E e \in EncOf(v) : c = [kind |-> "ok", val |-> v, bytes |-> e]
@@ -179,5 +180,5 @@ Init == \/ \E v \in Universe : \E e \in EncOf(v) : c = [kind |-> "ok", val |-> v
 Next == FALSE /\ c' = c
 Spec == Init /\ [][Next]_c
 Emit == PrintT(ToJson([f |-> Format, part |-> Part, kind |-> c.kind, val |-> c.val, bytes |-> c.bytes,
-                       repr |-> ReprOf(c.val), cuts |-> Cuts(RLen(c.bytes)), trails |-> Trails(c.bytes)]))
+                       repr |-> ReprOf(c.val), cuts |-> Cuts(RLen(c.bytes)), trails |-> Trails(c.val, c.bytes)]))
 =============================================================================
